@@ -11,7 +11,7 @@ struct World {
   int P, D; int n_rng = 0; int n_tests = 0, n_fvals = 0;
   std::map<std::vector<fpsym_key_t>, int> ids;   // distinct points (by expression identity) -> symbol index: domain and objective are functions of the point
   std::vector<Eval> log; size_t pending_from = 0; bool mismatch = false;
-  int idOf(const std::vector<double> &xs){ std::vector<fpsym_key_t> x = fpsym_keys(xs); auto it = ids.find(x); if (it != ids.end()) return it->second; int k = (int) ids.size(); ids[x] = k; return k; }
+  int idOf(const std::vector<double> &xs){ std::vector<fpsym_key_t> x = fpsym_keys(xs); auto it = ids.find(x); int k; if (it != ids.end()) k = it->second; else { k = (int) ids.size(); ids[x] = k; } return (int) fpsym_recorded(k); }
   void call(ParticleSwarmState &state, int iters){
     pending_from = log.size();
     auto inside = [&](const std::vector<double> &x)->bool{ int k = idOf(x); bool in = fpsym_flag(1000 + k, (k % 3) != 1); n_tests++; log.push_back({x, 0.0, in}); return in; };
@@ -44,13 +44,19 @@ int main(int argc, char **argv){
   // history class of a recorded finding: clearCache() issued while some best-position slot had never been set
   // (the next call then evaluates the zero-initialised slot as if it were a visited point); obligations of such
   // histories carry a suffix so that the known finding is matched by history, not by property clause
-  std::string hist = "";
+  std::string hist = ""; bool hist_pending = false;
   double prev_best = 0; bool have_prev = false;
   for (int phase = 0; phase < 2; phase++){
     w.call(state, phase == 0 ? it1 : it2);
     fpsym_check(!w.mismatch, "objective receives exactly the in-domain points of the batch");
     if (getenv("C20_DEBUG")){ fprintf(stderr, "phase %d window %zu\n", phase, window); for (size_t e=0;e<w.log.size();e++) fprintf(stderr, "  log %zu id %d x0 %g in %d v %g\n", e, w.idOf(w.log[e].x), fpsym_concrete(w.log[e].x[0]), (int) w.log[e].inside, fpsym_concrete(w.log[e].v));
       for (int i=0;i<=P;i++) fprintf(stderr, "  best slot %d inside %d fval %g pos %g\n", i, (int) state.cache_best_particle_inside[i], fpsym_concrete(state.cache_best_particle_fvals[i]), fpsym_concrete(state.getBestParticlePositions()[i*D])); }
+    if (hist_pending){
+      // the recorded finding needs, in addition, that the zero-initialised slot (the concrete zero vector) was judged inside the domain
+      bool zero_inside = false;
+      for (size_t e = window; e < w.log.size(); e++){ bool zero = true; for (int j=0;j<D;j++) if (fpsym_exprid(w.log[e].x[j]) != 0 || fpsym_concrete(w.log[e].x[j]) != 0.0) zero = false; if (zero && w.log[e].inside) zero_inside = true; }
+      if (zero_inside) hist = " [history: clearCache while a best-position slot was never set, and the zero vector is inside the domain]";
+    }
     std::vector<double> best = state.getBestParticlePositions();
     bool any_inside = false; for (size_t e = window; e < w.log.size(); e++) if (w.log[e].inside) any_inside = true;
     fpsym_check(any_inside == (bool) state.cache_best_particle_inside[P], (std::string("swarm best known iff some point of the window was inside the domain") + hist).c_str());
@@ -109,7 +115,7 @@ int main(int argc, char **argv){
     if (edit == 1 || edit == 3 || edit == 4){
       if (edit == 4){ std::vector<double> np(P * D); for (int i=0;i<P*D;i++) np[i] = fpsym_symbolic(-0.4 + 0.35 * i, 70 + i, -2.0, 2.0); state.setParticlePositions(np); }
       bool unset = false; for (int i=0;i<=P;i++) if (!state.cache_best_particle_inside[i]) unset = true;
-      if (unset && state.best_positions_initialized) hist = " [history: clearCache while a best-position slot was never set]";
+      if (unset && state.best_positions_initialized) hist_pending = true;
       state.clearCache(); window = w.log.size(); have_prev = false;   // everything is re-evaluated on the next call
     }
     if (edit == 2 || edit == 3){
